@@ -314,7 +314,19 @@ fn full_ids(d: &Value, out: &mut Vec<i64>) {
 fn run_one(id: u64, rec: &Value, route: &str, out: &mut Out) {
     let tree = &rec["tree"];
     let ct = &rec["ct"]; // [min h, min w, max h, max w]
-    let cts: Vec<usize> = ct.as_array().unwrap().iter().map(|v| v.as_u64().unwrap() as usize).collect();
+    // negative entries are markers for bounds beyond TLC's integers (ViewTreeGen family N5)
+    let cts: Vec<usize> = ct
+        .as_array()
+        .unwrap()
+        .iter()
+        .map(|v| match v.as_i64() {
+            Some(-1) => usize::MAX,
+            Some(-2) => 1 << 40,
+            Some(-3) => usize::MAX - 1,
+            Some(-4) => 1 << 20,
+            _ => v.as_u64().unwrap() as usize,
+        })
+        .collect();
     let glyphs = rec["glyphs"].as_bool().unwrap_or(false);
     let surf_mode = rec["surf"].as_str().unwrap_or("max");
     let ctx = ctx_for(glyphs);
@@ -548,7 +560,7 @@ pub fn vectors(args: &[String]) {
                 ct[0] = ct[2];
             }
         }
-        out.rec(&json!({"id": first + round as u64, "tree": tree, "ct": ct, "glyphs": round % 2 == 0, "surf": surf, "route": if json_only { "json" } else { "typed" }}));
+        out.rec(&json!({"id": first + round as u64, "tree": tree, "ct": ct, "glyphs": if round % 10 == 9 { (round / 10) % 2 == 0 } else { round % 2 == 0 }, "surf": surf, "route": if json_only { "json" } else { "typed" }}));
     }
 }
 
